@@ -143,8 +143,13 @@ fn sent(f: impl FnOnce(&dyn Fn(HttpRequest) -> Result<HttpResponse, FakeErr>)) -
 fn authz(r: AuthorizationRequest) -> M {
     let (u, _) = r.url();
     let s = u.to_string();
-    let base = s.split('?').next().unwrap_or("").to_string();
-    let q: Vec<(String, String)> = u.query_pairs().map(|(k, v)| (k.into_owned(), v.into_owned())).collect();
+    // the endpoint as configured, its own query included: everything before the first pair the library appends
+    let cut = s.find("response_type=").map(|i| i.saturating_sub(1)).unwrap_or(s.len());
+    let base = s[..cut].to_string();
+    // the pairs the LIBRARY appended: what follows the endpoint's own text (its own query may name the same parameters)
+    let appended = s[cut..].trim_start_matches(|c| c == '?' || c == '&');
+    let appended = appended.split('#').next().unwrap_or("");
+    let q: Vec<(String, String)> = url::form_urlencoded::parse(appended.as_bytes()).map(|(k, v)| (k.into_owned(), v.into_owned())).collect();
     let get = |k: &str| q.iter().find(|(n, _)| n == k).map(|(_, v)| v.clone());
     match get("client_id") {
         Some(id) => M::A { base, id, redirect: get("redirect_uri") },
@@ -436,11 +441,22 @@ impl<A: AuthSt, B: DevSt, C: IntroSt, D: RevSt, E: TokSt> DynClient for BasicCli
 /// the 19 operation kinds
 pub const KINDS: usize = 19;
 
+fn own_query(ep: usize, tag: &str) -> &'static str {
+    let odd = tag.bytes().last().map(|b| b % 2 == 1).unwrap_or(false);
+    match (odd, ep) {
+        (false, _) => "",
+        (true, 0) => "?tenant=t1&client_id=old-app&redirect_uri=https%3A%2F%2Fold.example%2Fcb&state=fixed&scope=x",
+        (true, _) => "?tenant=t1&api-version=2",
+    }
+}
+
 /// operation `kind` carrying a value that encodes `tag` (distinct per position / draw)
 pub fn mk(kind: usize, tag: &str) -> CfgOp {
     match kind {
-        0..=4 => CfgOp::Set { ep: kind as u8, url: format!("https://e{kind}.example/s{tag}") },
-        5..=9 => CfgOp::SetOpt { ep: (kind - 5) as u8, url: Some(format!("https://e{}.example/o{tag}", kind - 5)) },
+        // every other endpoint URL has a query of its own — for the authorization endpoint one that already names parameters the
+        // library manages (a tenant-specific URL copied from a console): the flow still carries the CLIENT's id and redirect
+        0..=4 => CfgOp::Set { ep: kind as u8, url: format!("https://e{kind}.example/s{tag}{}", own_query(kind, tag)) },
+        5..=9 => CfgOp::SetOpt { ep: (kind - 5) as u8, url: Some(format!("https://e{}.example/o{tag}{}", kind - 5, own_query(kind - 5, tag))) },
         10..=14 => CfgOp::SetOpt { ep: (kind - 10) as u8, url: None },
         15 => CfgOp::Secret(format!("secret-{tag}")),
         16 => CfgOp::Redirect(format!("https://r.example/cb{tag}")),
